@@ -39,6 +39,8 @@ SIG_F19 = ("C09:F19 AverageLearner1D.ask takes next(iter(_undersampled_points)):
            "set, which a snapshot/restore of the learner does not preserve")
 SIG_F2 = ("C09:F2 BalancingLearner.tell_pending leaves _pending_loss stale (C15:F2): loss(real=False) after a committing ask "
           "differs from ask(tell_pending=False) followed by tell_pending of each point")
+SIG_F10 = ("C09:F10 Learner2D.ask(tell_pending=False) rewrites _stack (and leaves the combined interpolator stale): repeated and "
+           "later answers differ from an untouched twin")
 SIG_F17 = ("C09:F17 BalancingLearner.ask(tell_pending=False) resets AverageLearner1D children to default parameters "
            "(restore via __setstate__ re-runs __init__ without delta/alpha/min_samples/...)")
 
@@ -114,6 +116,7 @@ def pre_state(ad, l):
         st["child_fp"] = [G.fp_attrs(c) for c in l.learners]
         if ad.child.spec["kind"] == "Avg1D":
             st["params"] = [avg1d_params(c) for c in l.learners]
+    st["l2d_stack"] = [G.canon(list(b._stack.items())) for a, b in leaves(ad, l) if a.spec["kind"] == "L2D"]
     st["under_order"] = [list(b._undersampled_points) for a, b in leaves(ad, l) if a.spec["kind"] == "Avg1D"]
     for a, b in leaves(ad, l):
         if a.spec["kind"] == "Int":
@@ -260,6 +263,10 @@ def probe_state(ad, H, n, seed):
     msg, _ = run_continuation(ad, A, B, random.Random(seed))
     if msg:
         generic.append(("later", msg))
+    if generic and G.base_kind(ad.spec) == "L2D":
+        now = [G.canon(list(b._stack.items())) for a, b in leaves(ad, A) if a.spec["kind"] == "L2D"]
+        if now != pre["l2d_stack"]:
+            return [(SIG_F10, f"{name} after {len(H)} ops: {generic[0][1]}; the learner's _stack is not what it was before the calls")], True
     if generic and is_bal and chg:
         attrs = sorted({a for v in chg.values() for a in v})
         if G.base_kind(ad.spec) in ("L1D", "Avg1D") and set(attrs) <= L1D_REBUILD_ATTRS:
@@ -311,10 +318,14 @@ def probe_state(ad, H, n, seed):
                 break
         sc, sd = G.snapshot(ad, C), G.snapshot(ad, D)
         d = G.diff_snap(sc, sd)
+        if G.base_kind(ad.spec) == "L2D":
+            # Learner2D interpolates over the pending points with qhull: the expected loss depends, in the last digits,
+            # on the ORDER in which the same pending points were inserted -- compared to 1e-5 relative
+            d = [k for k in d if not (k in ("loss_exp", "fresh_exp") and _close(sc[k], sd[k]))]
         if bad is not None:
             fails.append((f"C09:{G.spec_name(_sig_spec(ad.spec))}:commit-state",
                           f"{name} after {len(H)} ops: tell_pending of a point returned by ask({n}, False) raised {G.short(bad)}"))
-        elif d and is_bal and set(d) <= {"loss_exp", "loss_real"} and _equal_without_loss_caches(ad, C, D):
+        elif d and is_bal and set(d) <= {"loss_exp", "loss_real", "fresh_exp", "fresh_real"} and _equal_without_loss_caches(ad, C, D):
             return [(SIG_F2, f"{name} after {len(H)} ops: after ask({n}, True) loss(real=False) = {G.short(sc['loss_exp'])} but after "
                              f"ask({n}, False) + tell_pending(each) {G.short(sd['loss_exp'])} (equal once _loss/_pending_loss are dropped)")], True
         elif d:
@@ -329,6 +340,14 @@ def probe_state(ad, H, n, seed):
             fails.append((f"C09:{G.spec_name(_sig_spec(ad.spec))}:commit-state",
                           f"{name} after {len(H)} ops: points {G.short(missing)} returned by ask({n}, True) are not pending"))
     return fails, False
+
+
+def _close(a, b, rel=1e-5):
+    import math
+    try:
+        return math.isclose(float.fromhex(a[1]), float.fromhex(b[1]), rel_tol=rel)
+    except Exception:  # noqa: BLE001
+        return a == b
 
 
 def _equal_without_loss_caches(ad, C, D):
